@@ -416,6 +416,9 @@ class World:
             return obs
         try:
             if kind == "rx":
+                if len(ev) > 2:
+                    # the clock is an environment choice of this very step: ("rx", line, epoch, utc_offset)
+                    self.epoch, self.utc_offset = ev[2], ev[3]
                 obs.eff_line = self.deliver(ev[1])
             elif kind == "rx2":
                 self.cur_cause = ("rx", ev[1])
@@ -451,6 +454,9 @@ class World:
                 self.dead = obs.exc
         if obs.where != "pump":
             self._pump(obs)
+        if kind == "rx" and len(ev) > 2:
+            self.epoch = self.cfg.get("epoch", 1_700_000_000)
+            self.utc_offset = self.cfg.get("utc_offset", 3 * 3600)
         self._obs = None
         return obs
 
